@@ -292,16 +292,37 @@ def run(ctx) -> RuleResult:
             target = loop.iter
             if isinstance(target, ast.Call) and isinstance(target.func, ast.Name) and target.func.id == "range" \
                     and len(target.args) == 1 and isinstance(target.args[0], ast.Call) and isinstance(target.args[0].func, ast.Name) \
+                    and target.args[0].func.id == "min" and len(target.args[0].args) == 2 \
+                    and all(isinstance(a, ast.Call) and isinstance(a.func, ast.Name) and a.func.id == "len" and len(a.args) == 1
+                            for a in target.args[0].args):
+                # range(min(len(A), len(B))): the positions zip(A, B) visits
+                target = ast.Call(func=ast.Name(id="zip", ctx=ast.Load()), args=[a.args[0] for a in target.args[0].args], keywords=[])
+            if isinstance(target, ast.Call) and isinstance(target.func, ast.Name) and target.func.id == "range" \
+                    and len(target.args) == 1 and isinstance(target.args[0], ast.Call) and isinstance(target.args[0].func, ast.Name) \
                     and target.args[0].func.id == "len" and len(target.args[0].args) == 1:
                 target = target.args[0].args[0]
-            for _ in range(3):
-                if isinstance(target, ast.Name):
-                    values = [n.value for n in ast.walk(func) if isinstance(n, ast.Assign) and len(n.targets) == 1
-                              and isinstance(n.targets[0], ast.Name) and n.targets[0].id == target.id]
-                    if len(values) == 1:
-                        target = values[0]
-                        continue
-                break
+            def _resolve(expr):
+                for _ in range(3):
+                    if isinstance(expr, ast.Name):
+                        values = [n.value for n in ast.walk(func) if isinstance(n, ast.Assign) and len(n.targets) == 1
+                                  and isinstance(n.targets[0], ast.Name) and n.targets[0].id == expr.id]
+                        # a, b = x, y
+                        for n in ast.walk(func):
+                            if isinstance(n, ast.Assign) and len(n.targets) == 1 and isinstance(n.targets[0], ast.Tuple) \
+                                    and isinstance(n.value, ast.Tuple) and len(n.value.elts) == len(n.targets[0].elts):
+                                for tgt, val in zip(n.targets[0].elts, n.value.elts):
+                                    if isinstance(tgt, ast.Name) and tgt.id == expr.id:
+                                        values.append(val)
+                        if len(values) == 1:
+                            expr = values[0]
+                            continue
+                    break
+                return expr
+
+            if isinstance(target, ast.Call) and isinstance(target.func, ast.Name) and target.func.id == "zip":
+                target = ast.Call(func=target.func, args=[_resolve(a) for a in target.args], keywords=[])
+            else:
+                target = _resolve(target)
             it = U(target)
             full = (".keys" in it or ".coefficients" in it) and "[" not in it.replace("[0]", "").replace("[1]", "") \
                 and "reversed" not in it and "range(" not in it
